@@ -175,18 +175,45 @@ def lean_build(prop, cfg):
 
 # ---------------------------------------------------------------- Rust side
 
+def repo_content_hash():
+    """hash of everything of /repo the harness is compiled from (contents, not timestamps)"""
+    h = hashlib.sha256()
+    files = [os.path.join(REPO, 'Cargo.toml'), os.path.join(REPO, 'Cargo.lock'), os.path.join(REPO, 'build.rs')]
+    for root, _, fs in sorted(os.walk(os.path.join(REPO, 'src'))):
+        files += [os.path.join(root, f) for f in sorted(fs)]
+    for f in files:
+        if os.path.isfile(f):
+            h.update(os.path.relpath(f, REPO).encode() + b'\0')
+            h.update(open(f, 'rb').read()); h.update(b'\0')
+    return h.hexdigest()
+
+
 def harness_build():
     """build the harness against /repo's working tree with hooks on; fall back to no unit hooks"""
     with Lock('cargo'):
         shim = os.path.join(CACHE, 'fault.so')
         if not os.path.exists(shim):
             sh(['cc', '-shared', '-fPIC', '-O1', '-o', shim, os.path.join(HARNESS, 'shim', 'fault.c'), '-ldl'])
+        # cargo decides by timestamps whether a path dependency changed: a tree restored with its old timestamps (copy, overlay,
+        # rsync -a) would keep the binaries of the previous tree. Decide by content instead: when the sources differ from the ones
+        # the last build saw, drop the compiled `anoncreds` artifacts so that they are rebuilt whatever the timestamps say.
+        stamp = os.path.join(HARNESS, 'target', '.repo_content_hash')
+        now = repo_content_hash()
+        last = open(stamp).read().strip() if os.path.exists(stamp) else ''
+        if last != now:
+            if last:
+                sh(['cargo', 'clean', '--offline', '-p', 'anoncreds'], cwd=HARNESS, timeout=600)
+            try: os.remove(stamp)
+            except OSError: pass
         rc, out, dt = sh(['cargo', 'build', '--offline'], cwd=HARNESS, timeout=3600)
         if rc == 0:
+            os.makedirs(os.path.dirname(stamp), exist_ok=True)
+            open(stamp, 'w').write(now)
             return dict(ok=True, unit_hooks=True, build_s=dt, log=out[-2000:])
         log('harness build with unit hooks failed; retrying without them')
         rc2, out2, dt2 = sh(['cargo', 'build', '--offline', '--no-default-features'], cwd=HARNESS, timeout=3600)
         if rc2 == 0:
+            open(stamp, 'w').write(now)
             return dict(ok=True, unit_hooks=False, build_s=dt + dt2, log=out[-3000:])
         return dict(ok=False, unit_hooks=False, build_s=dt + dt2, log=(out[-3000:] + '\n----\n' + out2[-3000:]))
 
